@@ -327,6 +327,12 @@ func (r *Raft) runCandidate() {
 		case preVote := <-prevoteCh:
 			// This a pre-vote case it should trigger a "real" election if the pre-vote is won.
 			r.mainThreadSaturation.working()
+			// A heartbeat is handled on the transport's own goroutine (fast path),
+			// not by this loop: a leader may have made us its follower while we
+			// were waiting here. Then this campaign is over.
+			if r.getState() != Candidate {
+				return
+			}
 			r.logger.Debug("pre-vote received", "from", preVote.voterID, "term", preVote.Term, "tally", preVoteGrantedVotes)
 			// Check if the term is greater than ours, bail
 			if preVote.Term > term {
@@ -363,6 +369,13 @@ func (r *Raft) runCandidate() {
 			}
 		case vote := <-voteCh:
 			r.mainThreadSaturation.working()
+			// Same as above: the heartbeat of a leader of a newer term may have
+			// moved us on since these votes were asked for. Votes count only
+			// for the term they were requested in, while we are still a
+			// candidate in that term.
+			if r.getState() != Candidate || r.getCurrentTerm() != term {
+				return
+			}
 			// Check if the term is greater than ours, bail
 			if vote.Term > r.getCurrentTerm() {
 				r.logger.Debug("newer term discovered, fallback to follower", "term", vote.Term)
